@@ -1,53 +1,164 @@
 -------------------------------- MODULE FocusTree --------------------------------
-(* C08 model: a two-level tree (a Pile whose children are leaves or Columns of leaves) under   *)
-(* every history of arrow keys, focus assignments (valid and invalid) and child deletions      *)
-(* within bounds, with navigation as documented (an arrow key moves to the nearest selectable  *)
-(* sibling in that direction, else is passed up).  TLC checks the focus invariants of          *)
-(* FocusTreeOps in every reachable state.                                                      *)
+(* C08 model.  Two kinds of root, chosen at Init:                                              *)
+(*  "pile": a Pile whose children are leaves (unselectable / selectable / selectable and        *)
+(*          consuming the character "x") or Columns of leaves;                                  *)
+(*  "lb":   a ListBox of ListLen one-row leaves seen through a viewport of View rows.           *)
+(* Every history (of any length: the state space is closed) of keys (the four arrows and a      *)
+(* character), focus assignments (valid and invalid, onto selectable AND unselectable           *)
+(* children), child insertions and deletions, and - for the ListBox - layouts (a rendering),    *)
+(* with navigation as documented: a key is offered down the focus path as far as the children   *)
+(* are selectable, a leaf may consume it, otherwise the innermost container that navigates with *)
+(* it moves to the nearest selectable sibling in that direction, otherwise the key comes back.  *)
+(* A ListBox focus assignment moves the walker at once and remembers the old position until     *)
+(* the next layout ("far jump": the new item is not among the visible rows around the old one). *)
+(* The state is projected to the node table of FocusTreeOps and TLC checks the SAME predicates  *)
+(* the trace specification applies to the real containers.                                      *)
+(* Variant selects the design: "doc" must satisfy every invariant; the wrong designs            *)
+(*  "guardOnFocusChild" (the Pile asks the focus CHILD instead of itself whether to offer the   *)
+(*   key, and falls into its cursor-down branch when that child is unselectable) and            *)
+(*  "staleWalker" (a far jump leaves the walker on the old position at the next layout)         *)
+(* must be refuted (the driver runs them and demands the violation).                            *)
 EXTENDS FocusTreeOps
 
-CONSTANTS Shapes, Depth     \* Shapes: set of trees given as sequences of children; a child is <<"leaf", sel>> or <<"cols", <<sel...>>>>
+CONSTANTS MaxKids, ListLen, View, Wide, Variant
 
-VARIABLES kids, pf, cf, n, lastmoved     \* kids: children of the Pile; pf: Pile focus; cf: focus per Columns child
-vars == <<kids, pf, cf, n, lastmoved>>
+VARIABLES mode, kids, pf, cf,        \* kids: children; pf: root focus (Pile focus / walker position); cf: focus per Columns child
+          pend, top,                  \* ListBox: old position while an assignment awaits the next layout (-1: none); first visible item
+          op, pre, key, ate, ret, recv, want    \* the last step: what it was, table before it, key sent, a leaf consumed it, what came back,
+                                                \* ids the key was offered to, index a valid assignment asked for (-1: none)
+vars == <<mode, kids, pf, cf, pend, top, op, pre, key, ate, ret, recv, want>>
 
-ChildKinds == {<<"leaf", <<0>>>>, <<"leaf", <<1>>>>, <<"cols", <<0, 1>>>>, <<"cols", <<1, 1>>>>, <<"cols", <<0, 0>>>>}
-ShapesDef == UNION {[1..k -> ChildKinds] : k \in 0..3}
+\* a child is <<"leaf", <<sel>>, eats>> or <<"cols", <<sel...>>, 0>>
+Leaves == {<<"leaf", <<0>>, 0>>, <<"leaf", <<1>>, 0>>, <<"leaf", <<1>>, 1>>}
+ColsKinds == {<<"cols", <<0, 1>>, 0>>, <<"cols", <<1, 1>>, 0>>, <<"cols", <<0, 0>>, 0>>}
+             \cup (IF Wide = 1 THEN {<<"cols", <<>>, 0>>, <<"cols", <<1, 0, 1>>, 0>>} ELSE {})
+ChildKinds == Leaves \cup ColsKinds
+InsertKinds == {<<"leaf", <<0>>, 0>>, <<"leaf", <<1>>, 1>>}
+PileShapes == UNION {[1..k -> ChildKinds] : k \in 0..MaxKids}
+ListShapes == [1..ListLen -> Leaves]
 IsCols(c) == c[1] = "cols"
 ChildSel(c) == \E j \in 1..Len(c[2]) : c[2][j] = 1
+Keys == {"up", "down", "left", "right", "x"}
+Min(S) == CHOOSE x \in S : \A y \in S : x <= y
+Max(S) == CHOOSE x \in S : \A y \in S : x >= y
 
-Init == /\ kids \in Shapes
+(* ---- projection to the node table: root id 1, child i id 10 i, leaf j of a Columns child 10 i + j ------------------------- *)
+LeafNode(id, parent, idx, sel) ==
+  [id |-> id, parent |-> parent, idx |-> idx, kind |-> "Leaf", leaf |-> 1, nch |-> 0, focus |-> -1, sel |-> sel, ok |-> 1, emptyok |-> 1]
+ChildSeq(i) ==
+  LET c == kids[i] IN
+  IF IsCols(c)
+  THEN <<[id |-> 10 * i, parent |-> 1, idx |-> i - 1, kind |-> "Columns", leaf |-> 0, nch |-> Len(c[2]), focus |-> cf[i],
+          sel |-> IF ChildSel(c) THEN 1 ELSE 0, ok |-> 1, emptyok |-> 1]>>
+       \o [j \in 1..Len(c[2]) |-> LeafNode(10 * i + j, 10 * i, j - 1, c[2][j])]
+  ELSE <<LeafNode(10 * i, 1, i - 1, c[2][1])>>
+RECURSIVE Flat(_)
+Flat(i) == IF i > Len(kids) THEN <<>> ELSE ChildSeq(i) \o Flat(i + 1)
+RootSelectable == mode = "lb" \/ \E i \in 1..Len(kids) : ChildSel(kids[i])
+Table == <<[id |-> 1, parent |-> 0, idx |-> 0, kind |-> IF mode = "lb" THEN "ListBox" ELSE "Pile", leaf |-> 0, nch |-> Len(kids), focus |-> pf,
+            sel |-> IF RootSelectable THEN 1 ELSE 0, ok |-> 1, emptyok |-> 1]>> \o Flat(1)
+
+Init == /\ mode \in {"pile", "lb"}
+        /\ kids \in (IF mode = "pile" THEN PileShapes ELSE ListShapes)
         /\ pf = IF kids = <<>> THEN -1 ELSE 0
         /\ cf = [i \in 1..Len(kids) |-> IF IsCols(kids[i]) /\ Len(kids[i][2]) > 0 THEN 0 ELSE -1]
-        /\ n = 0 /\ lastmoved = -1
+        /\ pend = -1 /\ top = 0
+        /\ op = "init" /\ pre = <<>> /\ key = "-" /\ ate = 0 /\ ret = "-" /\ recv = {} /\ want = -1
 
-Vertical(dir) ==   \* up / down in the Pile: nearest selectable sibling in that direction
-  LET cands == {i \in 1..Len(kids) : ChildSel(kids[i]) /\ (IF dir = 1 THEN i - 1 > pf ELSE i - 1 < pf)}
-  IN IF cands = {} THEN UNCHANGED <<pf, lastmoved>>
-     ELSE LET t == IF dir = 1 THEN CHOOSE i \in cands : \A j \in cands : i <= j ELSE CHOOSE i \in cands : \A j \in cands : i >= j
-          IN pf' = t - 1 /\ lastmoved' = t - 1
-Horizontal(dir) ==
-  IF pf < 0 \/ ~IsCols(kids[pf + 1]) THEN UNCHANGED <<cf, lastmoved>>
-  ELSE LET row == kids[pf + 1][2]  cur == cf[pf + 1]
-           cands == {j \in 1..Len(row) : row[j] = 1 /\ (IF dir = 1 THEN j - 1 > cur ELSE j - 1 < cur)}
-       IN IF cands = {} THEN UNCHANGED <<cf, lastmoved>>
-          ELSE LET t == IF dir = 1 THEN CHOOSE j \in cands : \A k \in cands : j <= k ELSE CHOOSE j \in cands : \A k \in cands : j >= k
-               IN cf' = [cf EXCEPT ![pf + 1] = t - 1] /\ lastmoved' = -2
+NoKey == key' = "-" /\ ate' = 0 /\ ret' = "-" /\ recv' = {}
 
-Next == /\ n < Depth /\ n' = n + 1
-        /\ \/ (\E d \in {1, 2} : Vertical(d) /\ UNCHANGED <<kids, cf>>)
-           \/ (\E d \in {1, 2} : Horizontal(d) /\ UNCHANGED <<kids, pf>>)
-           \/ (\E p \in -1..Len(kids) :      \* focus assignment, invalid positions are rejected (IndexError) and change nothing
-                 /\ pf' = IF p >= 0 /\ p < Len(kids) THEN p ELSE pf
-                 /\ lastmoved' = -1 /\ UNCHANGED <<kids, cf>>)
-           \/ (Len(kids) > 0 /\ \E i \in 1..Len(kids) :
-                 /\ kids' = SubSeq(kids, 1, i - 1) \o SubSeq(kids, i + 1, Len(kids))
-                 /\ cf' = SubSeq(cf, 1, i - 1) \o SubSeq(cf, i + 1, Len(cf))
-                 /\ pf' = IF Len(kids) = 1 THEN -1 ELSE IF pf >= i THEN (IF pf - 1 < 0 THEN 0 ELSE pf - 1) ELSE (IF pf > Len(kids) - 2 THEN Len(kids) - 2 ELSE pf)
-                 /\ lastmoved' = -1)
+(* ---- Pile root ------------------------------------------------------------------------------------------------------------ *)
+VTarget(dir) ==   \* up / down in the Pile: nearest selectable sibling in that direction (0-based), -1: none
+  LET cands == {i \in 1..Len(kids) : ChildSel(kids[i]) /\ (IF dir = "down" THEN i - 1 > pf ELSE i - 1 < pf)}
+  IN IF cands = {} THEN -1 ELSE IF dir = "down" THEN Min(cands) - 1 ELSE Max(cands) - 1
+HTarget(dir) ==   \* left / right in the focus Columns
+  LET row == kids[pf + 1][2]  cur == cf[pf + 1]
+      cands == {j \in 1..Len(row) : row[j] = 1 /\ (IF dir = "right" THEN j - 1 > cur ELSE j - 1 < cur)}
+  IN IF cands = {} THEN -1 ELSE IF dir = "right" THEN Min(cands) - 1 ELSE Max(cands) - 1
+
+PileKey(k) ==
+  LET fsel   == pf >= 0 /\ ChildSel(kids[pf + 1])
+      iscols == pf >= 0 /\ IsCols(kids[pf + 1])
+      eaten  == fsel /\ ~iscols /\ k = "x" /\ kids[pf + 1][3] = 1
+      ht     == IF fsel /\ iscols /\ k \in {"left", "right"} THEN HTarget(k) ELSE -1
+      wrong  == Variant = "guardOnFocusChild" /\ pf >= 0 /\ ~fsel       \* the wrong design: everything but 'up' is 'down'
+      vdir   == IF wrong THEN (IF k = "up" THEN "up" ELSE "down") ELSE k
+      vt     == IF ~eaten /\ ht = -1 /\ vdir \in {"up", "down"} THEN VTarget(vdir) ELSE -1
+  IN /\ mode = "pile" /\ RootSelectable          \* keys are sent to a selectable root only (as MainLoop does)
+     /\ recv' = {1} \cup (IF fsel THEN {10 * (pf + 1)} ELSE {})
+                    \cup (IF fsel /\ iscols /\ kids[pf + 1][2][cf[pf + 1] + 1] = 1 THEN {10 * (pf + 1) + cf[pf + 1] + 1} ELSE {})
+     /\ ate' = IF eaten THEN 1 ELSE 0
+     /\ cf' = IF ht >= 0 THEN [cf EXCEPT ![pf + 1] = ht] ELSE cf
+     /\ pf' = IF vt >= 0 THEN vt ELSE pf
+     /\ ret' = IF eaten \/ ht >= 0 \/ vt >= 0 THEN "none" ELSE "same"
+     /\ key' = k /\ op' = "key" /\ want' = -1 /\ UNCHANGED <<mode, kids, pend, top>>
+
+PileAssign(p) ==      \* focus assignment: any child, selectable or not; invalid positions are rejected (IndexError) and change nothing
+  /\ mode = "pile"
+  /\ pf' = IF p >= 0 /\ p < Len(kids) THEN p ELSE pf
+  /\ want' = IF p >= 0 /\ p < Len(kids) THEN p ELSE -1
+  /\ op' = "assign" /\ NoKey /\ UNCHANGED <<mode, kids, cf, pend, top>>
+
+PileDelete(i) ==      \* focus rule of the monitored list: the focus index stays, clipped to the new length
+  /\ mode = "pile"
+  /\ kids' = SubSeq(kids, 1, i - 1) \o SubSeq(kids, i + 1, Len(kids))
+  /\ cf' = SubSeq(cf, 1, i - 1) \o SubSeq(cf, i + 1, Len(cf))
+  /\ pf' = IF Len(kids) = 1 THEN -1 ELSE IF pf >= i THEN (IF pf - 1 < 0 THEN 0 ELSE pf - 1) ELSE (IF pf > Len(kids) - 2 THEN Len(kids) - 2 ELSE pf)
+  /\ op' = "edit" /\ want' = -1 /\ NoKey /\ UNCHANGED <<mode, pend, top>>
+
+PileInsert(i, c) ==   \* insertion before child i (1..Len+1): the focus stays on the same widget; an empty Pile focuses the new child
+  /\ mode = "pile" /\ Len(kids) < MaxKids
+  /\ kids' = SubSeq(kids, 1, i - 1) \o <<c>> \o SubSeq(kids, i, Len(kids))
+  /\ cf' = SubSeq(cf, 1, i - 1) \o <<-1>> \o SubSeq(cf, i, Len(cf))
+  /\ pf' = IF kids = <<>> THEN 0 ELSE IF i - 1 <= pf THEN pf + 1 ELSE pf
+  /\ op' = "edit" /\ want' = -1 /\ NoKey /\ UNCHANGED <<mode, pend, top>>
+
+(* ---- ListBox root ---------------------------------------------------------------------------------------------------------- *)
+ClipTop(t) == IF t < 0 THEN 0 ELSE IF t > ListLen - View THEN ListLen - View ELSE t
+\* <<walker position, first visible item>> once a pending assignment has been laid out
+Laid ==
+  IF pend = -1 \/ pend = pf THEN <<pf, top>>
+  ELSE IF pf \in top..(top + View - 1) THEN <<pf, top>>                  \* near: the new focus is among the visible rows
+  ELSE IF Variant = "staleWalker" THEN <<pend, top>>                      \* the wrong design: the walker stays where it was
+  ELSE <<pf, ClipTop(pf - (View - 1) \div 2)>>                            \* far: placed in the middle of the view
+
+ListAssign(p) ==
+  /\ mode = "lb"
+  /\ IF p >= 0 /\ p < Len(kids) THEN pf' = p /\ pend' = pf /\ want' = p ELSE UNCHANGED <<pf, pend>> /\ want' = -1
+  /\ op' = "assign" /\ NoKey /\ UNCHANGED <<mode, kids, cf, top>>
+
+ListLayout ==         \* a rendering
+  /\ mode = "lb"
+  /\ pf' = Laid[1] /\ top' = Laid[2] /\ pend' = -1
+  /\ op' = "layout" /\ want' = -1 /\ NoKey /\ UNCHANGED <<mode, kids, cf>>
+
+ListKey(k) ==         \* lays out first, offers the key to a selectable focus item, then navigates: the adjacent item (scrolling)
+  LET w == Laid[1]  t == Laid[2]
+      fsel  == kids[w + 1][2][1] = 1
+      eaten == fsel /\ k = "x" /\ kids[w + 1][3] = 1
+      nw    == IF eaten THEN w ELSE IF k = "up" /\ w > 0 THEN w - 1 ELSE IF k = "down" /\ w < Len(kids) - 1 THEN w + 1 ELSE w
+  IN /\ mode = "lb"
+     /\ recv' = {1} \cup (IF fsel THEN {10 * (w + 1)} ELSE {})
+     /\ ate' = IF eaten THEN 1 ELSE 0
+     /\ pf' = nw /\ top' = (IF nw < t THEN nw ELSE IF nw > t + View - 1 THEN nw - View + 1 ELSE t) /\ pend' = -1
+     /\ ret' = IF eaten \/ nw # w THEN "none" ELSE "same"
+     /\ key' = k /\ op' = "key" /\ want' = -1 /\ UNCHANGED <<mode, kids, cf>>
+
+Next == /\ pre' = Table
+        /\ \/ \E k \in Keys : PileKey(k) \/ ListKey(k)
+           \/ \E p \in -1..Len(kids) : PileAssign(p) \/ ListAssign(p)
+           \/ \E i \in 1..Len(kids) : PileDelete(i)
+           \/ \E i \in 1..(Len(kids) + 1), c \in InsertKinds : PileInsert(i, c)
+           \/ ListLayout
 Spec == Init /\ [][Next]_vars
 
-FocusInv == (kids = <<>> /\ pf = -1) \/ (kids # <<>> /\ pf >= 0 /\ pf < Len(kids))
+(* ---- the properties: the predicates of FocusTreeOps on the projected tables ------------------------------------------------ *)
+FocusInv == FocusValid(Table)
 ColsFocusInv == \A i \in 1..Len(kids) : IsCols(kids[i]) /\ Len(kids[i][2]) > 0 => (cf[i] >= 0 /\ cf[i] < Len(kids[i][2]))
-ArrowLandsOnSelectable == lastmoved >= 0 => ChildSel(kids[lastmoved + 1])
+\* (the ListBox items of the model are leaves: no cursor placement inside an item, nothing pending in the sense of the contract)
+KeyOfferedOnPath == op = "key" => recv \subseteq Reach(pre, <<>>)
+UnhandledKeyComesBack == op = "key" => UnhandledComesBack(pre, <<>>, key, ate, ret) /\ KeyMovesOnlyNavigators(pre, Table, <<>>, <<>>, key)
+ArrowLandsOnSelectable == (op = "key" /\ key \in {"up", "down", "left", "right"}) => ArrowOnlyToSelectable(pre, Table, FALSE)
+AssignmentKept == (op = "assign" /\ want >= 0) => AssignmentTakesEffect(FocusesOf(Table), Table, <<>>, 1, want)
+LayoutKeeps == op = "layout" => LayoutKeepsFocus(FocusesOf(pre), Table, <<>>, <<>>)
 ==================================================================================
